@@ -20,6 +20,8 @@ const atomAccepted = "eq:ConnackMessage.ReturnCode:0"
 func checkC20(c *Ctx) {
 	c.R.NotCover = append(c.R.NotCover, "'exactly once per matching message' (the matching relation on the client-local tree, C06)", "goroutine leaks as a runtime count")
 	c.useRules(ruleP8, ruleP5, ruleP2, ruleP4, ruleP6, ruleP9, ruleP3)
+	// a delivery at QoS 1/2 is registered before it counts as sent: the registration refuses nothing that needs an acknowledgement
+	c.waitAcceptsRequests()
 	r := c.Roles()
 	if !c.Need("start", r.Start, "teardown", r.Stop, "handler", r.Handler, "socket writer", r.SockWrite) {
 		return
